@@ -196,6 +196,7 @@ impl Run {
                     return;
                 }
                 let h = SinkHandle::new("sub", st.id);
+                h.st().encode_check = true; // a real framed writer with a persistent write buffer
                 let ms = MockSink { h: h.clone(), log: self.log.clone(), describe: self.describe.clone() };
                 self.order.lock().unwrap().1.push(st.id);
                 let res = match self.tx.try_send(Socket::Sink(Box::pin(ms))) {
